@@ -136,6 +136,36 @@ theorem no_network_ever (kw : ParserKw) (h : kw.noNetwork = true) (env : Env) (d
     ∀ u ∈ (parse facts17.lib kw env doc).fetches, facts17.lib.isNet u.scheme = false :=
   parse_nonnet _ kw env h doc
 
+/-! ### what the deserialiser takes out of the tree, per kind of value -/
+
+/-- every kind of value (primitive parameters, array items, members of nested classes, XmlData,
+    AnyDict leaves) is built from text nodes only; AnyXml / AnyHtml hand the element on as parsed;
+    an XmlData value that contains an entity node is refused (the method is not called).
+    None reads libxml2's string value, which would materialise entity replacement text. -/
+theorem values_read_text_nodes_only (k : Kind) :
+    facts17.deliver k = .textNodesOnly ∨ facts17.deliver k = .element ∨ facts17.deliver k = .refused := by
+  cases k <;> decide
+
+/-- so, for every kind: what a leaf value is built from does not depend on ANY entity
+    declaration (nor on anything else in the parser's state) — no replacement text of an entity,
+    internal or external, is materialised by spyne in a value handed to user code -/
+theorem no_entity_text_delivered (k : Kind) (c c' : Cfg) (content : List OTok) :
+    deliverLeaf (facts17.deliver k) c content = deliverLeaf (facts17.deliver k) c' content := by
+  rcases values_read_text_nodes_only k with h | h | h <;> rw [h] <;> rfl
+
+/-- ... and it is the leading text node, which (text_never_substituted) is the document's own text -/
+theorem delivered_is_leading_text (k : Kind) (c : Cfg) (content : List OTok)
+    (h : facts17.deliver k = .textNodesOnly) : deliverLeaf (facts17.deliver k) c content = leadText content := by
+  rw [h]; rfl
+
+-- what the fact guards against: reading the string value substitutes the replacement text
+example : deliverLeaf .stringValue ⟨facts17.lib, facts17.liveDefaults .xml, ⟨fun _ => false, fun _ => [], fun _ => []⟩,
+      [(1, .internal [.lit "IENT".toList])], false, 50⟩ [.text "pre-".toList, .ent 1] = "pre-IENT".toList := by
+  decide +kernel
+example : deliverLeaf .textNodesOnly ⟨facts17.lib, facts17.liveDefaults .xml, ⟨fun _ => false, fun _ => [], fun _ => []⟩,
+      [(1, .internal [.lit "IENT".toList])], false, 50⟩ [.text "pre-".toList, .ent 1] = "pre-".toList := by
+  decide +kernel
+
 /-! ### bombs -/
 
 /-- nesting bomb: a document nested deeper than the limit is rejected -/
